@@ -1,0 +1,16 @@
+//go:build verif
+
+package gc
+
+// This file is compiled only with -tags verif. It exports single passes of the collectors that Run() starts
+// as periodic loops, so that the verification harness under /verif can count GC rounds; it changes no
+// behaviour.
+
+// VerifCleanupIP runs one pass over the allocated-IP directories.
+func VerifCleanupIP(g GC) error { return g.(*flannelGC).cleanupIP() }
+
+// VerifCleanupGCDirs runs one pass over the gc_dirs.
+func VerifCleanupGCDirs(g GC) error { return g.(*flannelGC).cleanupGCDirs() }
+
+// VerifCleanupVeth runs one pass over the host veth devices.
+func VerifCleanupVeth(g GC) error { return g.(*flannelGC).cleanupVeth() }
